@@ -242,6 +242,8 @@ def merge_stats(paths):
 
 
 def write_evidence(pid, cfg, tier, seed, subs, wall, violations, inconclusive, extra=None):
+    if os.environ.get("VERIF_NO_EVIDENCE"):
+        return  # sensitivity runs against deliberately broken trees leave the evidence alone
     evaluations = sum(s["evaluations"] for s in subs.values())
     distinct = sum(len(s["hashes"]) for s in subs.values())
     samples = []
